@@ -133,6 +133,7 @@ type Lemma struct {
 	Ensures   []Clause
 	Model     string
 	Trigger   []*CExpr
+	Uses      []string // earlier lemmas available as hypotheses in this lemma's proof
 }
 
 type PureDecl struct {
@@ -379,6 +380,12 @@ func parseContractFile(path, pkg string) (*ContractFile, error) {
 				}
 				cur.Witnesses = append(cur.Witnesses, WitnessDef{Name: strings.TrimSpace(d.text[:eq]), Anchor: strings.TrimSpace(d.text[at+1:]), E: parseExprString(d.text[eq+1 : at])})
 			case "use":
+				if curLemma != nil {
+					for _, f := range strings.Split(d.text, ",") {
+						curLemma.Uses = append(curLemma.Uses, strings.TrimSpace(f))
+					}
+					return
+				}
 				if cur == nil {
 					perr = fail(d, "use outside func")
 					return
